@@ -27,7 +27,7 @@ E = enums.E
 META = {
     "technique": "c2lean translation of the scalar derivative kernels (regenerated every run) + hand model of the FD drivers' bookkeeping + Lean 4 proofs over the reals (HasDerivAt of the damper / affine-actuator force laws as coded; frame argument over the op sequence of the modelled mjd_stepFD / mjd_inverseFD for every opaque step function; exactness of the differencing helpers on affine maps) + bitwise translation validation + trace differential of the modelled drivers against the unmodified mjd_transitionFD / mjd_inverseFD observed through engine callbacks + property oracle on generated models (qDeriv vs central differences, FD Jacobians vs direct perturbation, forward vs centred, state hashes)",
     "text": "Proved over the reals: the dof/tendon damper force as coded, -v*mju_polyForce(b, poly, v, 2, 1) = -(b v + p0 v|v| + p1 v^3), is differentiable at EVERY v (including 0) with derivative -mjd_xPolyForce(b, poly, v, 2, 1), the term mjd_passive_vel puts on qDeriv; the affine actuator force (g0 + g1 l + g2 v) u + b0 + b1 l + b2 v has velocity derivative b2 + g2 u, the term mjd_actuator_vel adds; the generated mjd_muscleGain_vel is the velocity derivative of the generated mju_muscleGain at every velocity that is not a breakpoint (-1, 0, fvmax-1 in normalised units) of the force-velocity curve, for all parameters (mjMINVAL clamps and the force<0 scaling branch included).  For the modelled mjd_stepFD (as called by mjd_transitionFD) and EVERY stand-in for mj_stepSkip and mj_integratePos (arbitrary functions on mjData), every configuration (requested outputs, centred or not, eps, control limits / ranges / values, warmstart flag, any nv, na, nu): the mjData it leaves behind agrees with the input on every field of restore_spec (time, qpos, qvel, act, history, plugin state, ctrl, and qacc_warmstart unless warmstart is disabled); fields outside restore_spec that the step stand-in does not modify (qfrc_applied, xfrc_applied, mocap, userdata, eq_active) are unchanged too.  For the modelled mjd_inverseFD and every stand-in for inverseSkip that leaves qpos, qvel, qacc alone (the frame condition of inverse dynamics; its necessity is shown by a counterexample) the result agrees with the input on qpos, qvel, qacc (element-wise save/nudge/restore and the full-copy restore of qpos).  diff / clampedStateDiff (state rows) are exact on affine maps in forward, backward and centred mode; clampedDiff (sensor rows of the control Jacobian) is exact in forward and backward mode.",
-    "note": "`_partial`: mjd_rne_vel, the fluid derivatives (mjd_inertiaBoxFluid, mjd_ellipsoidFluid), the sparse J'BJ accumulation and the numerical content of the FD Jacobians are decided by the oracle only.  FOUR GENUINE DEFECTS of the tree are reported by the oracle under stable keys: (1) c25:transitionFD:D-centered-sign, mirrored by theorem clampedDiff_centered_negated: the centred branch of clampedDiff calls diff(dx, x_plus, x_minus, 2h), i.e. (x_minus - x_plus)/(2h), so mjd_transitionFD with flg_centered returns matrix D (d sensor / d ctrl) with the WRONG SIGN for every control that can be nudged both ways; (2) c25:qderiv:actuator:ctrl-outside-ctrlrange: mjd_actuator_vel multiplies the velocity gain by the raw d->ctrl although mj_fwdActuation clamps ctrl to ctrlrange, so for a control outside its range the analytic derivative differs from the derivative of the force that is applied (theorem affine_actuator_vel_deriv is about the input the force law uses); (3) c25:transitionFD:euler-polydamping-stale-factorization: velocity nudges are stepped with skipstage POS, mj_EulerSkip then reuses the factorisation of M + h diag(d damper/d v), which with polynomial damping depends on the nudged velocity: velocity columns of A differ from direct perturbation of mj_step by O(1) relative amounts; (4) c25:transitionFD:implicit-stale-qDeriv-for-ctrl-act: ctrl / act nudges are stepped with skipstage VEL, mj_implicitSkip then reuses qDeriv and its factorisation, which depend on ctrl / act through velocity-dependent actuator gains (affine kv, muscle): B and the act columns of A differ from direct perturbation.  Comparison conventions: qDeriv is compared on the sparsity pattern of M only (documented restriction, computation/index.rst) and the analytic derivative is evaluated with the integrator option set to implicit (implicitfast symmetrises the fluid blocks: documented approximation).  Oracle tolerances: qDeriv vs central differences 3e-5 x scale (eps 1e-6; observed <= 4e-6); FD Jacobians vs direct perturbation 1e-6 x scale / eps-free (same arithmetic on copies); forward vs centred on smooth models (no contacts, limits, friction loss, equalities, cutoffs) 2e-3 x scale; state hashes bitwise.  The trace differential observes the real drivers through mjcb_control (inside every mj_stepSkip) and mjcb_act_gain (inside inverseSkip's mj_fwdActuation) on hinge/slide chains built by the harness; skip stages are observed through sentinels in light_xpos / cdof_dot that only mj_fwdPosition / mj_fwdVelocity rewrite.  Reals, not doubles: rounding is outside the proofs.",
+    "note": "`_partial`: mjd_rne_vel, the fluid derivatives (mjd_inertiaBoxFluid, mjd_ellipsoidFluid), the sparse J'BJ accumulation and the numerical content of the FD Jacobians are decided by the oracle only.  FIVE GENUINE DEFECTS of the tree are reported by the oracle under stable keys: (1) c25:transitionFD:D-centered-sign, mirrored by theorem clampedDiff_centered_negated: the centred branch of clampedDiff calls diff(dx, x_plus, x_minus, 2h), i.e. (x_minus - x_plus)/(2h), so mjd_transitionFD with flg_centered returns matrix D (d sensor / d ctrl) with the WRONG SIGN for every control that can be nudged both ways; (2) c25:qderiv:actuator:ctrl-outside-ctrlrange: mjd_actuator_vel multiplies the velocity gain by the raw d->ctrl although mj_fwdActuation clamps ctrl to ctrlrange, so for a control outside its range the analytic derivative differs from the derivative of the force that is applied (theorem affine_actuator_vel_deriv is about the input the force law uses); (3) c25:transitionFD:euler-polydamping-stale-factorization: velocity nudges are stepped with skipstage POS, mj_EulerSkip then reuses the factorisation of M + h diag(d damper/d v), which with polynomial damping depends on the nudged velocity: velocity columns of A differ from direct perturbation of mj_step by O(1) relative amounts; (4) c25:transitionFD:implicit-stale-qDeriv-for-ctrl-act: ctrl / act nudges are stepped with skipstage VEL, mj_implicitSkip then reuses qDeriv and its factorisation, which depend on ctrl / act through velocity-dependent actuator gains (affine kv, muscle): B and the act columns of A differ from direct perturbation.  (5) c25:qderiv:passive:ellipsoid-drag-minval-guard: mjd_viscous_drag divides by max(mjMINVAL, sqrt(proj_num^3 proj_denom)), a quantity of order size^12 speed^4 that is below 1e-15 for centimetre-sized non-spherical geoms at centimetres per second, so the d(A_proj)/dv term is lost there and the analytic derivative of the ellipsoid drag is off by percents (exact again when the state is scaled up).  Comparison conventions: qDeriv is compared on the sparsity pattern of M only (documented restriction, computation/index.rst) and the analytic derivative is evaluated with the integrator option set to implicit (implicitfast symmetrises the fluid blocks: documented approximation).  Oracle tolerances: qDeriv vs central differences 3e-5 x scale (eps 1e-6; observed <= 4e-6); FD Jacobians vs direct perturbation 1e-6 x scale / eps-free (same arithmetic on copies); forward vs centred on smooth models (no contacts, limits, friction loss, equalities, cutoffs) 2e-3 x scale; state hashes bitwise.  The trace differential observes the real drivers through mjcb_control (inside every mj_stepSkip) and mjcb_act_gain (inside inverseSkip's mj_fwdActuation) on hinge/slide chains built by the harness; skip stages are observed through sentinels in light_xpos / cdof_dot that only mj_fwdPosition / mj_fwdVelocity rewrite.  Reals, not doubles: rounding is outside the proofs.",
 }
 
 P = "MjProof.C25."
@@ -44,6 +44,7 @@ DEFECT_D_SIGN = "c25:transitionFD:D-centered-sign"
 DEFECT_EULER = "c25:transitionFD:euler-polydamping-stale-factorization"
 DEFECT_IMPLICIT = "c25:transitionFD:implicit-stale-qDeriv-for-ctrl-act"
 DEFECT_CTRL = "c25:qderiv:actuator:ctrl-outside-ctrlrange"
+DEFECT_GUARD = "c25:qderiv:passive:ellipsoid-drag-minval-guard"
 TOL_QDERIV = 3e-5
 TOL_DIRECT = 1e-6
 TOL_FWD_CEN = 2e-3
@@ -235,14 +236,25 @@ def judge_qderiv(rec, dev):
         scale = max(1.0, amax(A), amax(F), frc)
         d = mdiff(A, F)
         act_bad0 = not dev_ok(M["A_act"], M["F_act"], TOL_QDERIV * max(1.0, amax(M["A_act"]), amax(M["F_act"]), frc))
+        pas_bad0 = not dev_ok(M["A_pas"], M["F_pas"], TOL_QDERIV * max(1.0, amax(M["A_pas"]), amax(M["F_pas"]), frc))
         if ctrl_out and act_bad0 and name in ("actuator", "smooth", "smooth-nobias") and d > TOL_QDERIV * scale:
             dev.m["count:" + DEFECT_CTRL] = dev.m.get("count:" + DEFECT_CTRL, 0) + 1
+            ok = False
+        elif M.get("fluidguard", [0])[0] > 0 and pas_bad0 and name in ("passive", "smooth", "smooth-nobias") and d > TOL_QDERIV * scale:
+            dev.m["count:" + DEFECT_GUARD] = dev.m.get("count:" + DEFECT_GUARD, 0) + 1
             ok = False
         else:
             ok = dev.see("qderiv:" + name, d, TOL_QDERIV * scale)
         if not ok:
             i = max(range(len(A)), key=lambda k: abs(A[k] - F[k]))
             key, what = "c25:qderiv:" + name, "analytic d(%s force)/d(qvel) differs from central differences" % name
+            pas_bad = not dev_ok(M["A_pas"], M["F_pas"], TOL_QDERIV * max(1.0, amax(M["A_pas"]), amax(M["F_pas"]), frc))
+            if M.get("fluidguard", [0])[0] > 0 and pas_bad and name in ("passive", "smooth", "smooth-nobias"):
+                key = DEFECT_GUARD
+                what = ("mjd_viscous_drag clamps sqrt(proj_num^3 proj_denom) (of order size^12 speed^4) from below by mjMINVAL = 1e-15; "
+                        "for centimetre-sized non-spherical ellipsoid-fluid geoms moving at centimetres per second the clamp is active "
+                        "and the d(A_proj)/d(v) term of the drag derivative is lost: analytic d(passive force)/d(qvel) differs from "
+                        "central differences")
             act_bad = not dev_ok(M["A_act"], M["F_act"], TOL_QDERIV * max(1.0, amax(M["A_act"]), amax(M["F_act"]), frc))
             if ctrl_out and act_bad and name in ("actuator", "smooth", "smooth-nobias"):
                 key = DEFECT_CTRL
